@@ -746,7 +746,7 @@ def build_vrt(run, name, driver_src, repo_srcs, extra_flags=()):
             raise Infra("build of %s failed:\n%s" % (src, out[-4000:]))
         objs.append(o)
     exe = run.path(name)
-    rc, out = sh(["clang", "-o", exe] + objs, timeout=600)
+    rc, out = sh(["clang", "-Wl,--wrap=memset,--wrap=memcpy,--wrap=memmove", "-o", exe] + objs, timeout=600)
     if rc != 0:
         raise Infra("link of %s failed:\n%s" % (name, out[-4000:]))
     return exe
